@@ -1076,3 +1076,82 @@ silent("c05-silent-hit-test-inverted", ["C05", "C04"], MI,
        "                    self._cache[cache_key] = result\n                    return result\n\n"
        "            result = self.rec_fallback(expr, *args, **kwargs)\n"
        "            self._cache[cache_key] = result\n        return result")
+
+# ---------------------------------------------------------------------------
+# C11
+# ---------------------------------------------------------------------------
+CFO = "pymbolic/mapper/constant_folder.py"
+FLT = "pymbolic/mapper/flattener.py"
+
+fire("c11-flatsum-keeps-zero", ["C11"], PR,
+     "        item = queue.pop(0)\n\n        if is_zero(item):\n            continue\n\n"
+     "        if isinstance(item, Sum):",
+     "        item = queue.pop(0)\n\n        if isinstance(item, Sum):",
+     "P/flattened_sum/append-only-proper-items")
+fire("c11-flatprod-keeps-one", ["C11"], PR,
+     "        if is_zero(item - 1):\n            continue\n\n", "",
+     "P/flattened_product/append-only-proper-items")
+fire("c11-flatprod-zero-not-annihilating", ["C11"], PR,
+     "        if is_zero(item):\n            return 0\n        if is_zero(item - 1):",
+     "        if is_zero(item):\n            continue\n        if is_zero(item - 1):",
+     "P/flattened_product/")
+fire("c11-flatprod-nested-kept", ["C11"], PR,
+     "        if isinstance(item, Product):\n            queue += item.children\n"
+     "        else:\n            done.append(item)",
+     "        done.append(item)",
+     "P/flattened_product/")
+fire("c11-flatsum-empty-is-one", ["C11"], PR,
+     "    if len(done) == 0:\n        return 0\n    elif len(done) == 1:\n"
+     "        return done[0]\n    else:\n        return Sum(tuple(done))",
+     "    if len(done) == 0:\n        return 1\n    elif len(done) == 1:\n"
+     "        return done[0]\n    else:\n        return Sum(tuple(done))",
+     "P/flattened_sum/empty-result")
+fire("c11-flatsum-builds-product", ["C11"], PR,
+     "        return done[0]\n    else:\n        return Sum(tuple(done))",
+     "        return done[0]\n    else:\n        return Product(tuple(done))",
+     "P/flattened_sum/nary-result")
+fire("c11-flattenmapper-no-rec", ["C11"], FLT,
+     "        return flattened_sum([self.rec(ch) for ch in expr.children])",
+     "        return flattened_sum(list(expr.children))",
+     "F/FlattenMapper/map_sum")
+fire("c11-fold-constants-unevaluated", ["C11"], CFO,
+     "                    if value is None:\n"
+     "                        # couldn't evaluate\n"
+     "                        nonconstants.append(child)\n"
+     "                    else:\n                        constants.append(value)",
+     "                    constants.append(value)",
+     "P/fold/")
+fire("c11-fold-drops-nonconstant", ["C11"], CFO,
+     "                else:\n                    nonconstants.append(child)\n\n"
+     "        if constants:",
+     "                else:\n                    pass\n\n        if constants:",
+     "P/fold/nonconstants-kept")
+fire("c11-fold-splice-at-end", ["C11"], CFO,
+     "                queue = list(child.children) + queue",
+     "                queue = queue + list(child.children)",
+     "P/fold/splice-in-front")
+fire("c11-fold-sum-with-mul", ["C11"], CFO,
+     "        return self.fold(expr, Sum, operator.add, flattened_sum)",
+     "        return self.fold(expr, Sum, operator.mul, flattened_sum)",
+     "S/folder/ConstantFoldingMapperBase.map_sum")
+fire("c11-plain-folder-folds-products", ["C11"], CFO,
+     "class ConstantFoldingMapper(\n        CSECachingMapperMixin,\n"
+     "        ConstantFoldingMapperBase,\n        IdentityMapper):",
+     "class ConstantFoldingMapper(\n        CSECachingMapperMixin,\n"
+     "        CommutativeConstantFoldingMapperBase,\n        IdentityMapper):",
+     "S/folder/ConstantFoldingMapper/map_product-is-identity")
+fire("c11-folder-mro-identity-first", ["C11"], CFO,
+     "class CommutativeConstantFoldingMapper(    # type: ignore[misc]\n"
+     "        CSECachingMapperMixin,\n"
+     "        CommutativeConstantFoldingMapperBase,\n        IdentityMapper):",
+     "class CommutativeConstantFoldingMapper(    # type: ignore[misc]\n"
+     "        CSECachingMapperMixin,\n        IdentityMapper,\n"
+     "        CommutativeConstantFoldingMapperBase):",
+     "S/folder/CommutativeConstantFoldingMapper")
+fire("c11-evaluate-swallows-everything", ["C11"], CFO,
+     "        except ValueError:\n            return None",
+     "        except Exception:\n            return None",
+     "P/fold/evaluate-catches-only-valueerror")
+silent("c11-silent-extend", ["C11"], PR,
+       "        if isinstance(item, Sum):\n            queue += item.children\n",
+       "        if isinstance(item, Sum):\n            queue += list(item.children)\n")
